@@ -10,6 +10,13 @@ import (
 )
 
 func (g *Gen) safety(kind, text string, pos token.Pos, reach, cond string) {
+	if g.ct != nil && g.ct.NoSafety {
+		// thin contract: the panic-freedom obligations of this function are not generated here
+		// (they belong to the C20 sweep); the execution is assumed not to panic at this point
+		g.assume(app("=>", reach, cond))
+		g.assumed["safety obligations not generated (nosafety contract): "+funcDisplayName(g.fn)] = true
+		return
+	}
 	g.newObligation("safety."+kind, "", text, g.where(pos), app("=>", reach, cond))
 }
 
